@@ -74,27 +74,67 @@ Proof.
   apply dsumdim_eq; [apply BTeq_sym; apply dsuml_uniform; assumption|]. simpl. exact Hp.
 Qed.
 
-Theorem alg_sum_batch_correct e : forall p r,
-  wf e -> (p < length (batch e))%nat -> alg_sum_batch e p = Ok r -> denote r == dsumdim (denote e) p.
+(* the base class: SumBatchLinearOperator over the operator itself when the summed dimension is the last batch dimension *)
+Lemma linsert_0 {T} (I : list T) (b : T) : linsert I 0 b = b :: I.
+Proof. destruct I; reflexivity. Qed.
+
+Lemma dsumbatch_dsumdim0 A : bsh A <> [] -> dsumbatch A == dsumdim A 0.
 Proof.
-  induction e using Op_ind'; intros p r0 HW HP HX; simpl in HX; try discriminate.
+  intros HN. unfold dsumbatch, dsumdim. destruct (bsh A) as [|k bs] eqn:E; [congruence|].
+  apply BTeq_intro; simpl; try reflexivity.
+  intros I i j _ _ _. apply zsum_ext. intros b _. rewrite linsert_0. reflexivity.
+Qed.
+
+Lemma base_sum_batch_correct0 e r : (0 < length (batch e))%nat -> base_sum_batch e 0 = Ok r -> denote r == dsumdim (denote e) 0.
+Proof.
+  intros HP HX. unfold base_sum_batch in HX. destruct (batch e) eqn:EB; [simpl in HP; lia|]. simpl in HX. okinv HX.
+  simpl. apply dsumbatch_dsumdim0. change (bsh (denote e)) with (batch e). rewrite EB. discriminate.
+Qed.
+
+(* classes whose own _sum_batch override is proved for every batch position *)
+Fixpoint sumb_own (e : Op) : bool :=
+  match e with
+  | Dense _ | Diag _ | CDiag _ _ | Ident _ _ | Zero _ _ _ => true
+  | Tri b _ => sumb_own b
+  | SumC KLRRAD _ => false
+  | SumC _ ops => (fix go (l : list Op) : bool := match l with [] => true | x :: r => sumb_own x && go r end) ops
+  | _ => false
+  end.
+
+Lemma sumb_own_go_Forall ops :
+  (fix go (l : list Op) : bool := match l with [] => true | x :: r => sumb_own x && go r end) ops = true ->
+  Forall (fun x => sumb_own x = true) ops.
+Proof. induction ops as [|x l IH]; intros H; constructor; apply andb_true_iff in H; destruct H; auto. Qed.
+
+Theorem alg_sum_batch_correct e : forall p r,
+  wf e -> (p < length (batch e))%nat -> (sumb_own e = true \/ p = 0%nat) ->
+  alg_sum_batch e p = Ok r -> denote r == dsumdim (denote e) p.
+Proof.
+  induction e using Op_ind'; intros p r0 HW HP HO HX; simpl in HX; try discriminate;
+    try (destruct HO as [HO| ->]; [simpl in HO; discriminate|]; apply base_sum_batch_correct0; [exact HP|exact HX]).
   - (* Dense *) okinv HX. apply BTeq_refl.
   - (* Diag *) okinv HX. simpl. apply ddiag_dsumdim.
   - (* CDiag *) okinv HX. simpl. apply dconstdiag_dsumdim.
   - (* Ident *) okinv HX. simpl. apply deye_dsumdim.
   - (* Zero *) okinv HX. simpl. apply dzero_dsumdim.
   - (* Tri *) apply wf_tri in HW. destruct HW as (HW & _). binv HX. rewrite (mk_tri_denote _ _ _ HX0). simpl. apply IHe; assumption.
-  - (* KronC *) destruct k; discriminate.
+  - (* KronC *)
+    destruct k; try discriminate;
+      (destruct HO as [HO| ->]; [simpl in HO; discriminate|]; apply base_sum_batch_correct0; [exact HP|exact HX]).
   - (* SumC *)
     pose proof HW as HW0. apply wf_sumc in HW. destruct HW as (HW & Hne & S & rr & cc & HU & _).
     assert (ES : batch (SumC k ops) = S) by (eapply batch_sumc; eassumption).
+    assert (HOs : Forall (fun x => sumb_own x = true \/ p = 0%nat) ops).
+    { destruct HO as [HO| ->]; [|rewrite Forall_forall; intros; right; reflexivity].
+      destruct k; simpl in HO; try discriminate; apply sumb_own_go_Forall in HO;
+        (eapply Forall_impl; [|exact HO]; intros; left; assumption). }
     assert (MAIN : forall ops', mapM (fun x => alg_sum_batch x p) ops = Ok ops' -> mk_sumc k ops' = Ok r0 ->
                    denote r0 == dsumdim (denote (SumC k ops)) p).
     { intros ops' HM HK. apply mapM_Forall2 in HM.
       assert (HF : Forall2 (fun x y => denote y == dsumdim (denote x) p) ops ops').
-      { apply (Forall2_from_IH (fun x => wf x /\ batch x = S) _ (fun x => alg_sum_batch x p)); [| |exact HM].
-        - eapply Forall_impl; [|exact H]. simpl. intros x Hx r (W1 & W2) Hr. apply Hx; try assumption. rewrite W2, <- ES. exact HP.
-        - rewrite Forall_forall in HW. unfold uniform in HU. rewrite Forall_forall in HU. rewrite Forall_forall. intros x Hx. split; [auto|].
+      { apply (Forall2_from_IH (fun x => wf x /\ batch x = S /\ (sumb_own x = true \/ p = 0%nat)) _ (fun x => alg_sum_batch x p)); [| |exact HM].
+        - eapply Forall_impl; [|exact H]. simpl. intros x Hx r (W1 & W2 & W3) Hr. apply Hx; try assumption. rewrite W2, <- ES. exact HP.
+        - rewrite Forall_forall in HW, HOs. unfold uniform in HU. rewrite Forall_forall in HU. rewrite Forall_forall. intros x Hx. split; [auto|]. split; [|auto].
           unfold batch. destruct (HU (denote x)) as (Q & _); [apply in_map; exact Hx|exact Q]. }
       assert (HD : same_dims_l rr cc ops').
       { unfold same_dims_l. unfold uniform in HU. rewrite Forall_forall in HU.
@@ -106,5 +146,6 @@ Proof.
       - destruct HF; congruence.
       - simpl. apply (dsuml_dsumdim S rr cc); try assumption; [destruct ops; simpl; congruence|rewrite <- ES; exact HP|].
         apply Forall2_map. exact HF. }
-    destruct k; try discriminate; rewrite go_is_mapM in HX; binv HX; eapply MAIN; eassumption.
+    destruct k; try (rewrite go_is_mapM in HX; binv HX; eapply MAIN; eassumption).
+    destruct HO as [HO| ->]; [simpl in HO; discriminate|]. apply base_sum_batch_correct0; [exact HP|exact HX].
 Qed.
